@@ -13,7 +13,9 @@ al = VerusUnit('al_astar', 'al_astar', rlimit=60)
 yr = VerusUnit("c13_yen_run", "c13_yen_run", rlimit=60)
 svia = VerusUnit("c13_single_via", "c13_single_via", rlimit=60)
 cb = VerusUnit("c10_combined", "c10_combined", rlimit=30)
-UNITS = [tm, cb, al, yr, svia]
+bw = KaniUnit("c10_builder_wit", "routee-compass", modules=[dict(file="routee-compass/src/app/compass/config/termination_model_builder.rs", src="c10_builder_wit.rs")], harnesses=[])
+bw.native_witnesses = ["c10_wit_configured_limits_are_the_limits_in_force"]
+UNITS = [tm, cb, al, yr, svia, bw]
 EXPLANATION = "TerminationModel::terminate_search for EVERY model (unit c10_combined, Verus, recursion through Vec<TerminationModel> with termination proved): whenever a size or iteration member at any depth of a Combined model is over its limit the model fires, a model without runtime members fires only then and never fails; lemmas: an iteration / size member anywhere stops the search at its limit; termination predicate and its error discipline under contract on the real code (Kani, complete over the integer domains); the search loop's use of it is carried by the Verus unit AL"
 NOT_DECIDED = "wall-clock kind inside a running search (clock assumed); the limits inside the sub-searches are those of run_a_star (same TerminationModel handed through); decided for the drivers: an error of a sub-search (a terminated one in particular) ends the query -- single-via: both searches are `?`-propagated (Verus: the driver returns Ok only if both returned Ok); Yen: ghost log of spur outcomes (unit c13_yen_run)"
 ASSUMPTIONS = ["Instant::now replaced by a symbolic clock (stub)", "alloc::fmt::format stubbed: error text is not checked, only the error variant"]
